@@ -3,8 +3,22 @@ import os, random, re, sys
 from vlib import core, corr
 
 AREA = "C05"
-MODULES = ["TinsModel.Props.C05"]
-AUDIT = ["Audit/C05.lean", "Audit/WireDerived.lean"]   # the second: C05 stated over the wire models of C01-C04 (Wire/Derived)
+LIM = {}          # translator/gen_limits.py values of the current source, filled by run()
+
+
+def rfc4884_edge():
+    """original-datagram sizes around the RFC 4884 minimum as the source currently has it (every site); only values the
+    literal lists do not already contain, so that on the unchanged tree the generator's random stream is what it was"""
+    out = []
+    for k in ("icmpMinPayload", "icmpMinPayloadTrailer", "icmpMinPayloadWrite", "icmp6MinPayloadTrailer", "icmp6MinPayloadWrite"):
+        v = LIM.get(k)
+        if v is not None and 8 <= v < 1400:
+            out += [v - 1, v, v + 1]
+    return sorted(set(out) - {127, 128, 129})
+
+
+MODULES = ["TinsModel.Props.C05", "TinsModel.Props.Limits.C05"]   # + the constants / limits tied to the source (translator/gen_limits.py)
+AUDIT = ["Audit/C05.lean", "Audit/WireDerived.lean", "Audit/LimitsC05.lean"]   # the second: C05 stated over the wire models of C01-C04 (Wire/Derived)
 LEVEL = "proof"
 HARNESS = "c05_wire"
 MANIFEST = dict(
@@ -23,6 +37,10 @@ MANIFEST = dict(
     technique="Lean 4 proof (arithmetic mod 65535, GF(2)-linearity of the CRC register) + model/impl correspondence + RFC "
               "dissector and libpcap oracles",
     design="DESIGN.md §6 C05")
+MANIFEST["note"] += (" Constants and limits of the C++ source that the model restates (translator/gen_limits.py -> Gen/Limits.lean: "
+                     "compiled probe + preprocessed function bodies at named anchors) are tied to the model's numerals by the "
+                     "theorems of lean/TinsModel/Props/Limits/C05.lean (audit: Audit/LimitsC05.lean); tools/LIMITS-INVENTORY.md lists "
+                     "what is tied and what is not.")
 
 CASE_START = ("sum", "crc", "ph4", "ph6", "pkt", "pcap", "reser")
 
@@ -271,7 +289,7 @@ class Gen:
         exts = icmp_exts(rng) if rng.random() < 0.5 else "-"
         head = f"icmp {t} {rng.randrange(16)} 0 0 0 0 0 {lenflag} {exts}"
         # the original datagram: sizes around the RFC 4884 boundaries
-        n = rng.choice([0, 1, 3, 4, 7, 8, 99, 100, 101, 107, 108, 109, 110, 127, 128, 129, 130, 131, 132, rng.randint(0, 300)])
+        n = rng.choice([0, 1, 3, 4, 7, 8, 99, 100, 101, 107, 108, 109, 110, 127, 128, 129, 130, 131, 132, rng.randint(0, 300)] + rfc4884_edge())
         if rng.random() < 0.6:
             inner = [f"ip 0 {rng.randrange(65536)} 0 0 {rng.randrange(256)} 17 {hx(addr4(rng))} {hx(addr4(rng))} {typed(ip_opts(rng))}",
                      f"udp {rng.randrange(65536)} {rng.randrange(65536)}", "raw " + hx(rbytes(rng, max(0, n - 28)))]
@@ -287,7 +305,7 @@ class Gen:
         t = rng.choice([1, 3])
         lenflag = 1 if rng.random() < 0.5 else 0
         exts = icmp_exts(rng) if rng.random() < 0.5 else "-"
-        n = rng.choice([0, 1, 7, 8, 9, 79, 80, 81, 87, 88, 89, 120, 127, 128, 129, 135, 136, 137, rng.randint(0, 300)])
+        n = rng.choice([0, 1, 7, 8, 9, 79, 80, 81, 87, 88, 89, 120, 127, 128, 129, 135, 136, 137, rng.randint(0, 300)] + rfc4884_edge())
         if rng.random() < 0.6:
             inner = [f"ip6 0 0 {rng.randrange(256)} 17 {hx(addr6(rng))} {hx(addr6(rng))} -",
                      f"udp {rng.randrange(65536)} {rng.randrange(65536)}", "raw " + hx(rbytes(rng, max(0, n - 48)))]
@@ -378,7 +396,9 @@ class Gen:
     def boundary_frames(self):
         """Ethernet minimum-frame boundary: inner sizes 44..48 octets, with and without 802.1Q (with/without its own padding)."""
         rng, out = self.rng, []
-        for n in range(0, 52):
+        # up to a few octets beyond the minimum frame size the source currently has (Gen/Limits: EthernetII / Dot1Q trailer_size)
+        top = max([52] + [v - 14 + 6 for v in (LIM.get("ethMinFrame"), LIM.get("dot1qMin")) if v is not None and v < 1500])
+        for n in range(0, top):
             eth = f"eth {hx(mac(rng))} {hx(mac(rng))} 0"
             out.append([eth, "raw " + hx(rbytes(rng, n))])
             for pad in (0, 1):
@@ -561,7 +581,13 @@ def regen_tables():
 
 def run(chk):
     regen_tables()
+    from translator import gen_limits
+    gen_limits.main([])          # Gen/Limits.lean: constants and limits read from the current source
+    chk.trusted.append("translator/gen_limits.py (constants / limits of the source -> Gen/Limits.lean: compiled probe + "
+                       "preprocessed function bodies at named anchors; tied to the model numerals by Props/Limits/C05.lean)")
+    LIM.update({k: v for k, v in gen_limits.values().items() if v is not None})
     problems = chk.prove(MODULES, AUDIT, want_leanchecker=(chk.tier == "thorough"))
+    problems = gen_limits.name_failures(chk, problems, "C05")   # name the tie theorems that fail
     exe, err = core.build_harness(HARNESS)
     if exe is None:
         chk.violation("implementation does not build: " + err[-1500:], ["build-error"], nofail=True)
